@@ -195,16 +195,16 @@ def main():
     H = harnesses()
     # (harness, cost model, bound, time cap in seconds)
     if chk.thorough:
-        plan = [(n, "deviation", 3, 400) for n in H]
-        plan += [(n, "preempt", 0, 120) for n in H]
-        plan += [("pingpong", "preempt", 1, 900), ("startstop", "preempt", 1, 900)]
+        plan = [(n, "deviation", 3, 150) for n in H]
+        plan += [(n, "preempt", 0, 60) for n in H]
+        plan += [("pingpong", "preempt", 1, 300)]
     else:
         plan = [(n, "deviation", 2, 60) for n in H]
         plan += [("pingpong", "preempt", 0, 60)]
     per = {}
     conformance = {}
     model_harnesses = (["pingpong"] if not chk.thorough
-                       else ["pingpong", "startstop", "fanin", "samesym"])
+                       else ["pingpong", "startstop", "samesym"])
     conformed, n_conformance = set(), 0
     tot = dict(executions=0, states=0, transitions=0, deadlocks=0, horizon=0)
     samples = []
